@@ -4,7 +4,7 @@ import ast
 from . import rule, info
 from ..program import AnalysisError, src, norm
 from ..tables import BINARY_DUNDERS, UNARY_DUNDERS
-from ..util import is_name, calls_in, callee_qual, deref, ancestors, const_str_tests, polarity, exclusive
+from ..util import is_name, calls_in, callee_qual, deref, ancestors, const_str_tests, polarity, exclusive, fmt_witness
 from .c01 import model, conversion_rule, find_primitives
 
 info('C02',
@@ -139,6 +139,40 @@ def operator_agreement(ctx):
     ctx.floor(20, '(11 arithmetic producers)')
 
 
+def _call_step_guards(m, cfg, avn):
+    """tests that let the operand evaluation be skipped exactly for the call step: avn lies on
+    the edge where ``op == '('`` is false"""
+    out = []
+    for t in cfg.nodes:
+        if t.kind == 'test' and m.op_var and m.loop_node in t.loop_stack:
+            pol = polarity(t.ast, "%s == '('" % m.op_var)
+            if pol:
+                other = 'false' if pol == 'true' else 'true'
+                if avn in exclusive(cfg, t, other):
+                    out.append(t)
+    return out
+
+
+def _evaluated_before(m, cfg, avn, node):
+    """the operand evaluation avn precedes ``node`` on every path of one iteration -- either it
+    dominates it, or it is skipped only for the call step (``if op != '(':``) and node is not part
+    of the call step's branch (op is not rebound within an iteration)"""
+    if cfg.dominates(avn, node):
+        return True
+    guards = _call_step_guards(m, cfg, avn)
+    if len(guards) != 1:
+        return False
+    b = m.branch_for('(')
+    in_call = b is not None and any(node.ast is x or any(node.ast is y for y in ast.walk(x)) for x in b.body)
+    if in_call:
+        return False
+    rebound = [n for n in cfg.nodes if n is not cfg.node_of(m.fetch_stmt) and m.loop_node in n.loop_stack
+               and any(nm == m.op_var for nm, _ in cfg.defs_at(n))] if m.fetch_stmt is not None else [1]
+    if rebound:
+        return False
+    return cfg.find_path(m.loop_node, {node}, avoid={avn, guards[0]}, labels=lambda l: l != 'exc') is None
+
+
 @rule('C02.3')
 def argument_context(ctx):
     m, w = model(ctx)
@@ -169,7 +203,7 @@ def argument_context(ctx):
                'the evaluated argument replaces the recorded one: %s' % norm(st), node=st)
         for kind, node, e in find_primitives(ctx, m):
             if m.arg_var in {x.id for x in ast.walk(e) if isinstance(x, ast.Name)}:
-                ctx.ob(cfg.dominates(avn, node), u,
+                ctx.ob(_evaluated_before(m, cfg, avn, node), u,
                        '%s primitive %s uses the evaluated argument' % (kind, norm(e)), node=e)
     # call op: Call(cur, args, kwargs) evaluated with the original target
     b = m.branch_for('(')
@@ -337,6 +371,23 @@ def literal_passthrough(ctx):
         for c in evs:
             ok = is_name(c.args[0], target) and is_name(c.args[1], lu.params[0])
             ctx.ob(ok, u, 'nested values are evaluated against the same target: %s' % norm(c), node=c)
+    # every element a rebuilt container is filled with -- dict keys included -- went through
+    # that evaluation (a T / Spec in key position is a nested spec like any other)
+    recs = {lu2.bound_name for lu2 in u.children if getattr(lu2, 'bound_name', None)}
+    if not recs:
+        recs = {n.targets[0].id for n in u.own_nodes() if isinstance(n, ast.Assign) and is_name(n.targets[0])
+                and isinstance(n.value, ast.Lambda)}
+    n_el = 0
+    for comp in [n for n in u.own_nodes() if isinstance(n, (ast.ListComp, ast.SetComp, ast.DictComp, ast.GeneratorExp))]:
+        elts = [comp.key, comp.value] if isinstance(comp, ast.DictComp) else [comp.elt]
+        bound = {x.id for g in comp.generators for x in ast.walk(g.target) if isinstance(x, ast.Name)}
+        for e in elts:
+            n_el += 1
+            ok = isinstance(e, ast.Call) and is_name(e.func) and e.func.id in recs and len(e.args) == 1 \
+                and is_name(e.args[0]) and e.args[0].id in bound
+            ctx.ob(ok, u, 'every element of a rebuilt container is evaluated: %s' % norm(e),
+                   '' if ok else 'copied as written: a T / Spec there is handed on unevaluated (%s)' % norm(comp)[:60], node=comp)
+    ctx.ob(n_el >= 4, u, 'container elements examined: %d (dict key, dict value, list / tuple element)' % n_el)
     # arg_val brackets MIN_MODE with a fresh valuator (see also C08.4)
     ctx.floor(6)
 
@@ -396,3 +447,28 @@ def _pairs(assign):
         else:
             out.append((t, assign.value))
     return out
+
+
+@rule('C02.16')
+def call_operands_evaluated_once(ctx):
+    """a '(' step is replayed through ``Call(cur, args, kwargs)``, and Call.glomit evaluates its
+    parts as arguments (C02.10).  The interpreter must therefore hand it the operand *as
+    recorded*: evaluating it beforehand as well replaces a nested spec by its value and then that
+    value -- if it is spec-like itself: T['f'](Val(T)) -- by yet another one"""
+    p = ctx.program
+    m, w = model(ctx)
+    u, cfg = m.unit, m.cfg
+    calls = [c for c in calls_in(u) if callee_qual(p, u, c) == 'core.Call' and m.loop in ancestors(c)]
+    ctx.require(len(calls) == 1, '_t_eval: the Call spec of the call step not found (%d)' % len(calls))
+    cn = cfg.node_containing(calls[0])
+    # the generic operand evaluation of the loop: ``arg = arg_val(target, arg, scope)``
+    pre = [n for n in cfg.nodes if n.kind == 'stmt' and isinstance(n.ast, ast.Assign) and is_name(n.ast.targets[0], m.arg_var)
+           and isinstance(n.ast.value, ast.Call) and callee_qual(p, u, n.ast.value) == 'core.arg_val' and m.loop_node in n.loop_stack]
+    ctx.require(len(pre) >= 1, '_t_eval: operand evaluation not found')
+    for pn in pre:
+        pth = cfg.find_path(pn, {cn}, avoid={m.loop_node}, labels=lambda l: l != 'exc')
+        # skipped exactly for the call step: ``if op != '(': arg = arg_val(..)``
+        ok = pth is None or len(_call_step_guards(m, cfg, pn)) == 1
+        ctx.ob(ok, u, 'the operand of a call step reaches Call unevaluated (Call evaluates it once)',
+               '' if ok else 'evaluated here and again by Call.glomit: %s' % fmt_witness(cfg, pth), node=pn.ast)
+    ctx.floor(1)
